@@ -103,7 +103,15 @@ def target_toy(case, rng):
             {"id": "dy", "type": "Distribution", "distribution": "torch.distributions.Gamma", "x": P("y", np.exp(rng.normal(0, 0.3, 2)).tolist()), "parameters": {"concentration": 2.0, "rate": 1.5}},
             {"id": "ds", "type": "Distribution", "distribution": "torch.distributions.Dirichlet", "x": P("s", rng.dirichlet([3, 3, 3]).tolist()), "parameters": {"concentration": [2.0, 3.0, 4.0]}},
             {"id": "dz", "type": "MultivariateNormal", "x": P("z", rng.normal(0, 1, 2).tolist()), "parameters": {"loc": {"id": "z.loc", "type": "ViewParameter", "parameter": "x", "indices": "0:2"}, "covariance_matrix": P("z.cov", [[1.0, 0.6], [0.6, 1.5]])}},
-            {"id": "joint", "type": "JointDistributionModel", "distributions": ["dx", "dy", "ds", "dz"]}]
+            # parameters in other numerical regimes: a rate of the order of 1e-9, a size of the order of 1e5 known to +-0.5, a positive
+            # quantity known to three digits (a scaler that starts far too bold for it)
+            {"id": "dr", "type": "Distribution", "distribution": "torch.distributions.Gamma", "x": P("r", [2.1e-9]), "parameters": {"concentration": 2.0, "rate": 1.0e9}},
+            {"id": "dbig", "type": "Distribution", "distribution": "torch.distributions.Normal", "x": P("big", [2.0e5]), "parameters": {"loc": 2.0e5, "scale": 0.5}},
+            {"id": "dw", "type": "Distribution", "distribution": "torch.distributions.Gamma", "x": P("w", [1.0]), "parameters": {"concentration": 1.0e6, "rate": 1.0e6}},
+            {"id": "joint", "type": "JointDistributionModel", "distributions": ["dx", "dy", "ds", "dz", "dr", "dbig", "dw"]}]
+    extra_ops = [op("op.scale.r", "ScalerOperator", ["r"], rng, case["adapt"], scaler=float(rng.uniform(0.3, 0.9))),
+                 op("op.slide.big", "SlidingWindowOperator", ["big"], rng, case["adapt"], width=1.0),
+                 op("op.scale.w", "ScalerOperator", ["w"], rng, True, scaler=0.9)]
     ops = [op("op.slide", "SlidingWindowOperator", ["x"], rng, case["adapt"], width=float(gm.loguniform(rng, 0.2, 3))),
            op("op.scale", "ScalerOperator", ["y"], rng, case["adapt"], scaler=float(rng.uniform(0.3, 0.9))),
            op("op.dirichlet", "DirichletOperator", ["s"], rng, case["adapt"], scaler=float(gm.loguniform(rng, 5, 200))),
@@ -122,7 +130,9 @@ def target_toy(case, rng):
                               "dual+mass": [{"id": "ad.dual", "type": "DualAveragingStepSize", "integrator": integ, "target_acceptance_probability": 0.7},
                                             {"id": "ad.mass", "type": "MassMatrixAdaptor", "parameters": ["z"], "mass_matrix": "op.hmc.mass", "update_frequency": 5}]}[kind]
         ops[3]["weight"] = 6.0
-    logged = ["x", "y", "s", "z"]
+    logged = ["x", "y", "s", "z", "r", "big", "w"]
+    if not case.get("adaptor") and not case.get("divergence_threshold"):
+        ops = ops + extra_ops
     return spec, ops, logged
 
 
@@ -166,7 +176,7 @@ def target_skygrid(case, rng):
         {"id": "gmrf", "type": "GMRF", "x": "field", "precision": P("precision", [float(gm.loguniform(rng, 0.5, 5))])},
         {"id": "prior.precision", "type": "Distribution", "distribution": "torch.distributions.Gamma", "x": "precision", "parameters": {"concentration": 1.5, "rate": 1.0}},
         {"id": "joint", "type": "JointDistributionModel", "distributions": ["skygrid", "gmrf", "prior.precision"]}]
-    ops = [{"id": "op.block", "type": "GMRFPiecewiseCoalescentBlockUpdatingOperator", "coalescent": "skygrid", "gmrf": "gmrf", "weight": 3.0, "scaler": float(rng.uniform(1.2, 3.0)),
+    ops = [{"id": "op.block", "type": "GMRFPiecewiseCoalescentBlockUpdatingOperator", "coalescent": "skygrid", "gmrf": "gmrf", "weight": 3.0, "scaler": float(rng.uniform(1.2, 3.0)) if case["seed"] % 3 else 1.0,  # 1.0: documented value (the precision is then not proposed until tuning moves the scaler)
             "disable_adaptation": not case["adapt"]},
            op("op.scale.precision", "ScalerOperator", ["precision"], rng, case["adapt"], scaler=float(rng.uniform(0.4, 0.9))),
            op("op.slide.field", "SlidingWindowOperator", ["field"], rng, case["adapt"], width=float(gm.loguniform(rng, 0.2, 2)))]
@@ -192,7 +202,7 @@ def set_leaves(dic, snap):
 def boldness(o):
     n = type(o).__name__
     if n == "ScalerOperator":
-        return 1.0 / o._scaler - o._scaler
+        return abs(1.0 / o._scaler - o._scaler)  # the factor is drawn between the scaler and its reciprocal, whichever is larger
     if n == "SlidingWindowOperator":
         return o._width
     if n == "DirichletOperator":
@@ -715,8 +725,9 @@ def independent_hastings(r, tname, ss, cnt, where, detail, V, torch):
         if tname == "ScalerOperator":
             s = a[i] / b[i]
             sc = r["scaler"]
-            if not (sc * (1 - 1e-9) <= s <= (1 / sc) * (1 + 1e-9)):
-                V.append(tt.viol("C15:proposal-support:" + tname, "%s: scale factor %.6g outside (%.6g, %.6g)" % (where, s, sc, 1 / sc), **detail))
+            lo_, hi_ = sorted((sc, 1 / sc))
+            if not (lo_ * (1 - 1e-9) <= s <= hi_ * (1 + 1e-9)):
+                V.append(tt.viol("C15:proposal-support:" + tname, "%s: scale factor %.6g outside (%.6g, %.6g)" % (where, s, lo_, hi_), **detail))
                 return "violation"
             return -math.log(s)
         shift = a[i] - b[i]
@@ -742,8 +753,9 @@ def independent_hastings(r, tname, ss, cnt, where, detail, V, torch):
         return K(p0) - K(p1)
     if tname.startswith("GMRF"):
         # parameters: [field, precision]
-        g0, t0 = r["op_before"][0].numpy(), float(r["op_before"][1])
-        g1, t1 = r["op_proposed"][0].numpy(), float(r["op_proposed"][1])
+        # (read from the state of the chain, not from the operator's own parameter list)
+        g0, t0 = r["before"]["field"].numpy(), float(r["before"]["precision"])
+        g1, t1 = r["proposed"]["field"].numpy(), float(r["proposed"]["precision"])
         sc = r["scaler"]
         ratio = t1 / t0
         if not (1 / sc * (1 - 1e-9) <= ratio <= sc * (1 + 1e-9)):
